@@ -1,9 +1,10 @@
 #!/bin/sh
 # selftest/refactors.sh : every behaviour-preserving refactoring under selftest/refactors/ must leave every
 # registered check at exit 0 (no alarm, no lost anchor).  Prints the offenders.  Runs 6 patches at a time.
+# optional argument: a glob over the fixture names, e.g. 'S*'
 here=$(cd "$(dirname "$0")" && pwd)
 tmp=$(mktemp -d)
-ls "$here"/refactors/*/patch.diff | xargs -P 6 -I{} sh -c 'n=$(basename $(dirname {})); python3 "'"$here"'/mutant.py" {} > "'"$tmp"'/$n.log" 2>&1'
+ls "$here"/refactors/${1:-*}/patch.diff | xargs -P 6 -I{} sh -c 'n=$(basename $(dirname {})); python3 "'"$here"'/mutant.py" {} > "'"$tmp"'/$n.log" 2>&1'
 bad=0
 for l in "$tmp"/*.log; do
   out=$(grep -E "exit=[12]|PATCH DOES NOT APPLY" "$l")
